@@ -138,12 +138,16 @@ def random_graph(rng):
     return n, sorted(edges)
 
 
-def judge(res, probe, kind, n, edges, order, bad_kinds):
+def judge(res, probe, kind, n, edges, order, bad_kinds, recase_rng=None):
     text = realise(kind, n, edges, order)
+    if recase_rng is not None:
+        # identifiers are case-insensitive: a reference spelled in another letter case is the same edge
+        import vgen
+        text = vgen.recase_identifiers(text, recase_rng, 0.5)
     obs = probe.run({"op": "analyze", "files": [["c07.st", text]]})
     res.evaluations += 1
     res.count("kind:" + kind)
-    case = {"kind": kind, "n": n, "edges": edges, "order": order, "text": text}
+    case = {"kind": kind, "n": n, "edges": edges, "order": order, "text": text, "recased": recase_rng is not None}
     if obs.get("watchdog"):
         res.inconclusive.append({"why": "watchdog", "case": case})
         return
@@ -182,7 +186,7 @@ def shard(shard_i, nshards, payload):
                 for kind in kinds:
                     order = list(range(n))
                     rng.shuffle(order)
-                    judge(res, probe, kind, n, edges, order, ())
+                    judge(res, probe, kind, n, edges, order, (), rng if idx % 3 == 0 else None)
         # sampled 4-node graphs (quick) and random larger graphs
         for i in range(shard_i, payload["n_sample4"], nshards):
             rng = core.rng_for(seed, "c07s4", i)
@@ -192,14 +196,14 @@ def shard(shard_i, nshards, payload):
             for kind in kinds:
                 order = list(range(4))
                 rng.shuffle(order)
-                judge(res, probe, kind, 4, edges, order, ())
+                judge(res, probe, kind, 4, edges, order, (), rng if i % 3 == 0 else None)
         for i in range(shard_i, payload["n_random"], nshards):
             rng = core.rng_for(seed, "c07r", i)
             n, edges = random_graph(rng)
             for kind in kinds:
                 order = list(range(n))
                 rng.shuffle(order)
-                judge(res, probe, kind, n, edges, order, ())
+                judge(res, probe, kind, n, edges, order, (), rng if i % 3 == 0 else None)
             if len(res.samples) < 2:
                 res.sample({"n": n, "edges": edges, "cyclic": has_cycle(n, edges), "text": realise("fb", n, edges, list(range(n)))[:300]})
     finally:
